@@ -64,8 +64,8 @@ pub enum Ev {
     AeSend { id: u64, from: u32, to: u32, term: u64, prev_index: u64, prev_term: u64, first: u64, n: u64, commit: u64, contiguous: bool },
     AeDeliver { id: u64, to: u32 },
     /// reply as it leaves the follower
-    AeReply { id: u64, follower: u32, leader: u32, kind: AeKind, term: u64, match_index: u64, truthful: Option<bool> },
-    AeReplyDeliver { id: u64, leader: u32 },
+    AeReply { id: u64, rid: u64, follower: u32, leader: u32, kind: AeKind, term: u64, match_index: u64, truthful: Option<bool> },
+    AeReplyDeliver { id: u64, rid: u64, leader: u32 },
     SnapshotPush { from: u32, to: u32, last_index: u64, last_term: u64, ok: bool },
     JoinReq { from: u32, to: u32 },
     JoinReply { node: u32, leader: u32, success: bool },
@@ -202,10 +202,10 @@ pub fn ev_json(r: &Rec) -> Value {
             json!({"ae": id, "from": from, "to": to, "term": term, "prev": [prev_index, prev_term], "first": first, "n": n, "commit": commit, "contig": contiguous})
         }
         Ev::AeDeliver { id, to } => json!({"ae_deliver": id, "to": to}),
-        Ev::AeReply { id, follower, leader, kind, term, match_index, truthful } => {
-            json!({"ae_reply": id, "follower": follower, "leader": leader, "kind": format!("{kind:?}"), "term": term, "match": match_index, "truthful": truthful})
+        Ev::AeReply { id, rid, follower, leader, kind, term, match_index, truthful } => {
+            json!({"ae_reply": id, "rid": rid, "follower": follower, "leader": leader, "kind": format!("{kind:?}"), "term": term, "match": match_index, "truthful": truthful})
         }
-        Ev::AeReplyDeliver { id, leader } => json!({"ae_reply_deliver": id, "leader": leader}),
+        Ev::AeReplyDeliver { id, rid, leader } => json!({"ae_reply_deliver": id, "rid": rid, "leader": leader}),
         Ev::SnapshotPush { from, to, last_index, last_term, ok } => {
             json!({"snapshot_push": [from, to], "last": [last_index, last_term], "ok": ok})
         }
